@@ -37,6 +37,8 @@ def plan(tier, seed):
     cases += [{'family': 'hostile_names', 'cseed': rnd.randrange(1 << 30)} for _ in range(n_h)]
     # wide groups (11-16 nodes of one type): vectorization grouping with index-based edge forms
     cases += [{'family': 'wide', 'cseed': rnd.randrange(1 << 30)} for _ in range(48 if tier == 'quick' else 600)]
+    # one mid-level circuit object under two keys, update_var below one of them, outputs below both
+    cases += [{'family': 'shared_update', 'cseed': rnd.randrange(1 << 30)} for _ in range(24 if tier == 'quick' else 400)]
     # edges through EdgeTemplates (one- and two-input edge operators, the second input addressed by an explicit variable path)
     cases += [{'family': 'edge_templates', 'cseed': rnd.randrange(1 << 30)} for _ in range(40 if tier == 'quick' else 900)]
     return cases
@@ -49,7 +51,46 @@ def warmup(ctx):
     monitors.install()
 
 
+def make_shared_update_case(case, ctx):
+    """Hierarchy of depth 2 whose first mid-level circuit is ONE CircuitTemplate object registered under two keys; update_var
+    addresses a variable below one key; the same variable is requested below both keys (and through a wildcard)."""
+    rnd = random.Random(case['cseed'])
+    for attempt in range(300):
+        spec, feats, risk = gen.gen_net(rnd, pool=gen.SAFE_POOL, n_nodes=rnd.choice([3, 4, 5, 6]), max_types=2, depth=2,
+                                        same_type_bias=True, forbid=ctx['excluded'], edge_density=rnd.choice([0.0, 0.2]))
+        subs = spec['circ']['subs']
+        if not subs:
+            continue
+        first = list(subs)[0]
+        if not subs[first].get('subs'):
+            continue
+        subs[first]['__share'] = 'shared0'
+        subs[first + '_twin'] = subs[first]
+        ref0 = RefModel(spec)
+        cands = [k for k in ref0.kind if k[0].startswith(first + '/') and ref0.kind[k] in ('const', 'state')]
+        if not cands:
+            continue
+        n, op, v = rnd.choice(cands)
+        spec['updates'] = [[f'{n}/{op}/{v}', round(rnd.uniform(1.5, 2.5), 4)]]
+        ref = RefModel(spec)
+        svars = [k for k in ref.state_keys if k[0] == n and k[1] == op] or [k for k in ref.state_keys if k[0] == n]
+        if not svars:
+            continue
+        _, sop, sv = rnd.choice(svars)
+        twin = first + '_twin' + n[len(first):]
+        requests = [f'{n}/{sop}/{sv}', f'{twin}/{sop}/{sv}']
+        if rnd.random() < 0.5:
+            requests.append('/'.join(['all'] * (n.count('/') + 1) + [sop, sv]))
+            if not pattern_ok(ref.node_order, requests[-1].split('/')[:-2]):
+                requests.pop()
+        f2, r2 = gen.features(spec)
+        return spec, f2 + ['shared_subcircuit_update'], sorted(set(r2)), ref, rnd.random() < 0.5, rnd.choice(['dict', 'dict', 'list']), requests, 2
+    raise RuntimeError('generator could not satisfy the constraints')
+
+
 def make_case(case, ctx):
+    if case.get('family') == 'shared_update':
+        return make_shared_update_case(case, ctx)
     rnd = random.Random(case['cseed'])
     want = case.get('want')
     for attempt in range(300):
@@ -193,6 +234,8 @@ def run_case(case, ctx):
             mech['vectorized_runs'] = mech.get('vectorized_runs', 0) + 1
         if depth:
             mech['hierarchical_runs'] = mech.get('hierarchical_runs', 0) + 1
+        if case.get('family') == 'shared_update':
+            mech['shared_subcircuit_updates'] = mech.get('shared_subcircuit_updates', 0) + 1
         res.update(status='ok', symptom='', mech=mech)
         res['sample'] = {'requests': requests, 'form': form, 'vectorize': vec, 'columns': [str(c) for c in cols],
                          'nodes': ref.node_order}
